@@ -7,6 +7,22 @@ from . import alpha, ffi, ref
 
 r = ref.r
 FREE, HID = "free", "hid"
+MARK = "H:"      # entry content "H:<value name>": omitFromKeys = true AND a non-zero id.  Key-side operations must ignore the id (the slot is
+                 # hidden exactly as with id 0); precompute / encrypt / sign / verify must ignore the flag (the id counts)
+
+
+def is_hidden(c):
+    """entry content that the key-side operations treat as a hidden slot"""
+    return c == HID or (isinstance(c, str) and c.startswith(MARK))
+
+
+def entry_value(c, vals):
+    """the id an entry carries on the wire (what precompute / encrypt / verify use)"""
+    if c == HID:
+        return 0
+    if isinstance(c, str) and c.startswith(MARK):
+        return vals[c[len(MARK):]]
+    return vals[c] if isinstance(c, str) else int(c)
 
 
 # ------------------------------------------------------------------------------------------------ values and lists
@@ -15,9 +31,9 @@ def values(seed):
     return {"v1": f[0], "v2": f[1], "0": 0, "r+v1": r + f[0], "max": 2**256 - 1, "r": r, "1": 1}
 
 
-def list_alphabet(l, names, omit_flags=(False, True)):
-    """all attribute lists: per slot absent / value name / hidden; x omitAllFromKeysUnlessPresent"""
-    per = [None] + list(names) + [HID]
+def list_alphabet(l, names, omit_flags=(False, True), marked=("v1",)):
+    """all attribute lists: per slot absent / value name / hidden (id 0) / hidden carrying a non-zero id; x omitAllFromKeysUnlessPresent"""
+    per = [None] + list(names) + [HID] + [MARK + n for n in marked]
     out = []
     for combo in itertools.product(per, repeat=l):
         ents = [[i, c] for i, c in enumerate(combo) if c is not None]
@@ -43,7 +59,7 @@ def model_keygen(l, L, vals):
     pat = []
     for i in range(l):
         if i in ents:
-            pat.append(HID if ents[i] == HID else norm(ents[i], vals))
+            pat.append(HID if is_hidden(ents[i]) else norm(ents[i], vals))
         else:
             pat.append(HID if L["omit"] else FREE)
     return tuple(pat)
@@ -56,10 +72,10 @@ def permitted(pattern, L, vals):
         if s == FREE:
             continue
         if s == HID:
-            if c is not None and c != HID and vals[c] % r != 0:
+            if c is not None and not is_hidden(c) and vals[c] % r != 0:
                 return False
         else:
-            if c is None or c == HID or vals[c] % r != s:
+            if c is None or is_hidden(c) or vals[c] % r != s:
                 return False
     return True
 
@@ -72,7 +88,7 @@ def model_qualify(pattern, L, vals):
         if s == FREE:
             if c is None:
                 pat.append(HID if L["omit"] else FREE)
-            elif c == HID:
+            elif is_hidden(c):
                 pat.append(HID)
             else:
                 pat.append(norm(c, vals))
@@ -178,10 +194,10 @@ class Native:
         arr = self.L.buf(max(1, asz * len(ents)))
         for k, (idx, c) in enumerate(ents):
             base = asz * k
-            v = 0 if c == HID else vals[c] if isinstance(c, str) else int(c)
+            v = entry_value(c, vals)
             ctypes.memmove(ctypes.byref(arr, base + self.off["wk_attribute.id"]), (v % 2**256).to_bytes(32, "little"), 32)
             ctypes.memmove(ctypes.byref(arr, base + self.off["wk_attribute.idx"]), int(idx).to_bytes(4, "little"), 4)
-            ctypes.memmove(ctypes.byref(arr, base + self.off["wk_attribute.omitFromKeys"]), b"\x01" if c == HID else b"\x00", 1)
+            ctypes.memmove(ctypes.byref(arr, base + self.off["wk_attribute.omitFromKeys"]), b"\x01" if is_hidden(c) else b"\x00", 1)
         al = self.L.buf(self.sz["wk_attributelist"])
         ctypes.memmove(ctypes.byref(al, self.off["wk_attributelist.attrs"]), ctypes.addressof(arr).to_bytes(8, "little"), 8)
         ctypes.memmove(ctypes.byref(al, self.off["wk_attributelist.length"]), len(ents).to_bytes(8, "little"), 8)
@@ -190,8 +206,9 @@ class Native:
         return al
 
     def plain_list(self, pairs):
-        """attribute list for encryption/signing from [(idx, integer value)]"""
-        return self.attrlist({"e": [[i, str(v)] for i, v in pairs], "omit": False}, _IntVals())
+        """attribute list for encryption/signing from [(idx, integer value)] or [(idx, integer value, marked)]: a marked entry has
+        omitFromKeys set, which precompute / encrypt / sign / verify must ignore"""
+        return self.attrlist({"e": [[p[0], (MARK if len(p) > 2 and p[2] else "") + str(p[1])] for p in pairs], "omit": False}, _IntVals())
 
 
 class _IntVals(dict):
